@@ -4,7 +4,11 @@ Nodes are presentations of ONE data set; edges change one coordinate of the pres
 permutation along lat / lon, sample permutation, split of the features into Dataset variables or list items, internal
 sample/feature names, samples carried by one dimension / by two dimensions named in either order / by one user-stacked
 MultiIndex dimension).  Three base configurations: plain, labelled user weights, ragged sample grid (fully missing samples
-spread unevenly over the two sample dimensions).  BFS over compositions to the tier's depth.  At every node every model class is fitted and its
+spread unevenly over the two sample dimensions).  Second entry point: the model fitted on a node is handed one fixed
+held-out data set in the fit layout and in every presentation one edge away that is legal for new data (transposed storage,
+sample order, sample dimensions stored the other way round, Dataset variable order, list items in different layouts;
+permuted feature coordinates are refused by Stacker.transform, which is accepted as long as it is that refusal) through
+transform / predict; the scores must agree label by label with those of the fit layout and of the base node's model.  BFS over compositions to the tier's depth.  At every node every model class is fitted and its
 canonical form (spectrum; components keyed by base cell; scores keyed by sample label) must fall into the base node's class.
 """
 
@@ -30,13 +34,15 @@ RULE = (
     "sample permutation, feature split into Dataset/list, internal names, samples as one dimension | two dimensions dim=(t, r) | dim=(r, t) | "
     "one user-stacked MultiIndex dimension) with at most `depth` non-default coordinates; "
     "transitions = lattice edges between visited nodes (one coordinate changed) times model classes; every fitted node is "
-    "validated against the base node's canonical form"
+    "validated against the base node's canonical form; in `new_data` cases a state is one (fitted node, presentation of the held-out data) pair "
+    "mapped to scores by every transform / predict route of the model"
 )
 LEVEL_TEXT = "all compositions of up to 2 (quick) / 3 (thorough) presentation edges over the full edge alphabet, for 17 model configurations (15 classes; cross-set classes also with an exactly solved PCA pre-reduction); the weighted, ragged and degenerate base configurations one level less deep"
 ASSUMPTIONS = [
     "one 9x(3x2) base data set per spectrum (geometric; flat_pair compared through projectors) stands for 'all inputs'",
     "PYTHONHASHSEED is fixed to 0 by ./check; the thorough tier re-explores the quick graph in fresh interpreters with PYTHONHASHSEED = 1 and 2 (environment edge)",
     "order-dependent methods (ExtendedEOF, OPA, POP, HilbertEOF, EOFBootstrapper) are not given sample permutations, nor the two sample dimensions named in the other order (a sample permutation)",
+    "new data: one held-out data set (6 samples); fitted nodes of depth <= 1 (quick) / 2 (thorough) on the plain base; classes without transform (HilbertEOF, ExtendedEOF, OPA, EOFBootstrapper) are not in this part",
     "ragged base: one pattern of fully missing samples (3 of 12 slots, members with 4 / 3 / 2 samples), missing in every field alike; CPCCARotator on the exact-PCA configuration is explored one level less deep",
 ]
 TALLY_KEYS = ("model",)
@@ -321,6 +327,10 @@ def new_presentations(P, model):
     return out
 
 
+def _delta(q, P):
+    return {c: v for c, v in q.items() if v != P.get(c, 0) and c != "names"}
+
+
 def new_scores(model, obj, px, py, full=True):
     """Every way the fitted model maps new data to scores."""
     out = {}
@@ -359,11 +369,31 @@ def run_new_data(case, seed):
         ref_canon, ref_new = base_new(model, seed)
         canon, obj = fit_and_canon(model, P, seed, "geometric", want_obj=True)
         x, y = held_out(seed, model == "ComplexEOF")
-        res = {}
+        res, refused, raised = {}, 0, {}
         for edge, q in new_presentations(P, model):
             px, py = present(x, y, q, seed)
-            res.setdefault(edge, []).append((q, new_scores(model, obj, px, py, full=edge in ("fit_layout", "psam", "sample_storage"))))
+            try:
+                got = new_scores(model, obj, px, py, full=edge in ("fit_layout", "psam", "sample_storage"))
+            except ValueError as e:
+                # documented refusal of Stacker.transform: new data whose feature coordinates are stored in another
+                # element order than at fit time are rejected loudly (never mapped to other scores)
+                if edge in ("plat", "plon") and "different coordinates than the data used to fit" in str(e):
+                    refused += 1
+                    continue
+                if edge == "fit_layout":
+                    raise
+                raised.setdefault((edge, type(e).__name__), "new data as %s: %s: %s" % (_delta(q, P), type(e).__name__, str(e)[:160]))
+                continue
+            except Exception as e:
+                if edge == "fit_layout":
+                    raise
+                raised.setdefault((edge, type(e).__name__), "new data as %s: %s: %s" % (_delta(q, P), type(e).__name__, str(e)[:160]))
+                continue
+            res.setdefault(edge, []).append((q, got))
     own = res["fit_layout"][0][1]
+    # (0) a presentation of the new data that is legal for this model must not be refused
+    for (edge, et), msg in raised.items():
+        V.append(viol("new_data_presentation_raises", model, "fitted on %s; %s" % (P, msg), new_data=edge, error=et, **feats))
     # (1) the model fitted on P agrees with the base node's model on the held-out data (both in their fit layout)
     for k, a in ref_new.items():
         b = own[k]
@@ -385,10 +415,10 @@ def run_new_data(case, seed):
             for k, b in got.items():
                 ds = O.compare_da(own[k], b, tol, k, attrs=False, name=False)
                 if ds:
-                    bad.setdefault(k, "new data as %s: %s" % ({c: v for c, v in q.items() if v != P.get(c, 0) and c != "names"}, ds[0]))
+                    bad.setdefault(k, "new data as %s: %s" % (_delta(q, P), ds[0]))
         for k, msg in bad.items():
             V.append(viol("new_data_presentation_dependent", model, "fitted on %s; %s" % (P, msg), answer=k, new_data=edge, **feats))
-    return dict(violations=V, outcome="violation" if V else "ok", nontrivial=not V, states=n, transitions=n - 1 + ndepth(P), traces=n, info=dict(depth=ndepth(P), sdims=P["sdims"], ragged=False, model=model, entry="new_data"))
+    return dict(violations=V, outcome="violation" if V else "ok", nontrivial=not V, states=n, transitions=n - 1 + ndepth(P), traces=n, info=dict(depth=ndepth(P), sdims=P["sdims"], ragged=False, model=model, entry="new_data", compared=n - 1, refused_presentations=refused, edges=sorted(res)))
 
 
 @functools.lru_cache(maxsize=None)
@@ -592,6 +622,13 @@ def vacuity(outcomes, results, tier):
         seen = {r.get("info", {}).get("sdims") for r in results if r.get("info", {}).get("ragged") == rg}
         if seen != set(range(len(SDIMS))):
             return "%s base: sample presentations compared were %s, not all of %s" % ("ragged" if rg else "plain", sorted(seen, key=str), SDIMS)
+    edges = set()
+    for r in results:
+        if r.get("info", {}).get("entry") == "new_data":
+            edges |= set(r["info"].get("edges", []))
+    want = {"fit_layout", "order", "psam", "sample_storage", "variable_order", "item_layout"}
+    if not want <= edges:
+        return "new data was never presented as %s" % sorted(want - edges)
     exact = {r.get("info", {}).get("model") for r in results} & {"MCA_allpc", "CPCCA_allpc", "RDA_intpc", "CPCCARotator_allpc"}
     if len(exact) < 4:
         return "cross-set configurations with an exactly solved PCA pre-reduction compared: only %s" % sorted(exact)
